@@ -757,7 +757,7 @@ Proof.
     destruct (loop_inv _ _ _ _ _ cond body Hstep
                 (fun s => 1 <= s_count s /\ shape (s_ray s) = [max_step; 2])) with (4 := Ew)
       as (_ & Hc1 & Hs1); auto.
-    + intros s s' [Hp1 Hp2] _ (_ & _ & _ & [(A & B & C & D & _)|[(A & B & C & D)|(A & B & C & D)]]);
+    + intros s s' [Hp1 Hp2] _ (_ & _ & _ & [(A & B & C & D & _)|[(A & B & C & D & _)|(A & B & C & D & _)]]);
         rewrite B, D; split; try lia; auto.
     + rewrite Hc0, Hr0. split; [lia|reflexivity].
     + unfold fin2 in Hc. destruct ((max_step <=? s_count s1) || _) eqn:Eb; injection Hc as <- <-.
@@ -846,6 +846,32 @@ Proof.
   auto.
 Qed.
 
+Lemma ray_ok_progress hg' nf s s' : ray_ok s -> progress hg' max_step nf z x s s' -> ray_ok s'.
+Proof.
+  intros Hok (Hlt' & _ & [Hv _] & Hcase).
+  destruct Hcase as [(A & B & C & D & _)|[(A & B & C & D & _)|(A & B & C & D & _)]].
+  + destruct (ray_ok_set_sub s (s_pcur s') Hok Hlt' Hv) as (R1 & R2 & R3 & R4 & _).
+    destruct Hok as (Hc1 & _). unfold ray_ok. rewrite B, D.
+    split; [lia|]. split; [exact R1|]. split; [exact R2|]. split; [exact R3|exact R4].
+  + destruct (ray_ok_set_sub s (s_pcur s') Hok Hlt' Hv) as (R1 & R2 & R3 & R4 & _).
+    destruct Hok as (Hc1 & _). unfold ray_ok. rewrite B, D.
+    split; [lia|]. split; [exact R1|]. split; [exact R2|]. split; [exact R3|exact R4].
+  + unfold ray_ok in *. rewrite B, D. exact Hok.
+Qed.
+
+Lemma ray_ok_init s0 :
+  0 <= max_step -> s_count s0 = 1 -> 1 <= max_step ->
+  s_ray s0 = set_sub (full [max_step; 2] (nofZ 0)) [0] (of_list [zend; xend]) -> ray_ok s0.
+Proof.
+  intros Hms Hc0 Hms1 Hr0. unfold ray_ok. rewrite Hc0, Hr0.
+  assert (Hwf0 : wf (full [max_step; 2] (nofZ 0))).
+  { apply wf_full. repeat constructor; lia. }
+  split; [lia|]. split; [reflexivity|]. split; [apply wf_set_sub; exact Hwf0|].
+  rewrite !(get_set_sub_same (nofZ 0) (full [max_step; 2] (nofZ 0)) (of_list [zend; xend]) max_step 2 0)
+    by (auto; try reflexivity; lia).
+  split; reflexivity.
+Qed.
+
 Theorem ray2d_core_endpoints fuel ray count :
   core fuel = Ok (ray, count) -> 1 <= count ->
   shape ray = [max_step; 2] /\ wf ray /\ count < max_step /\
@@ -862,23 +888,8 @@ Proof.
     as (cond & body & s0 & Heq & (Hc0 & _ & _ & Hr0 & Hi0 & Hcell0) & Hstep).
   rewrite Heq in Hc. destruct (while_fuel fuel cond body s0) as [s1| |] eqn:Ew; simpl in Hc; try discriminate.
   destruct (loop_inv _ _ _ _ _ cond body Hstep ray_ok) with (4 := Ew) as (_ & Hok); auto.
-  - intros s s' Hok _ (Hlt' & _ & [Hv _] & Hcase).
-    destruct Hcase as [(A & B & C & D & _)|[(A & B & C & D)|(A & B & C & D)]].
-    + destruct (ray_ok_set_sub s (s_pcur s') Hok Hlt' Hv) as (R1 & R2 & R3 & R4 & _).
-      destruct Hok as (Hc1 & _). unfold ray_ok. rewrite B, D.
-      split; [lia|]. split; [exact R1|]. split; [exact R2|]. split; [exact R3|exact R4].
-    + destruct (ray_ok_set_sub s (s_pcur s') Hok Hlt' Hv) as (R1 & R2 & R3 & R4 & _).
-      destruct Hok as (Hc1 & _). unfold ray_ok. rewrite B, D.
-      split; [lia|]. split; [exact R1|]. split; [exact R2|]. split; [exact R3|exact R4].
-    + unfold ray_ok in *. rewrite B, D. exact Hok.
-  - (* initially *)
-    unfold ray_ok. rewrite Hc0, Hr0.
-    assert (Hwf0 : wf (full [max_step; 2] (nofZ 0))).
-    { apply wf_full. repeat constructor; lia. }
-    split; [lia|]. split; [reflexivity|]. split; [apply wf_set_sub; exact Hwf0|].
-    rewrite !(get_set_sub_same (nofZ 0) (full [max_step; 2] (nofZ 0)) (of_list [zend; xend]) max_step 2 0)
-      by (auto; try reflexivity; lia).
-    split; reflexivity.
+  - intros s s' Hok _ Hpr. eapply ray_ok_progress; eauto.
+  - (* initially *) apply ray_ok_init; auto; lia.
   - unfold fin2 in Hc. destruct ((max_step <=? s_count s1) || _) eqn:Eb; injection Hc as <- <-; [lia|].
     apply orb_false_elim in Eb. destruct Eb as [Eb _]. apply Z.leb_gt in Eb.
     destruct (ray_ok_set_sub s1 (of_list [zsrc; xsrc]) Hok Eb (vec2_of_list zsrc xsrc))
@@ -1003,3 +1014,185 @@ Proof.
 Qed.
 End Thm7.
 End Core2.
+
+(* ------------------------------------------------------------------------------------------ *)
+(* searchsorted bounds (generic)                                                                *)
+(* ------------------------------------------------------------------------------------------ *)
+Lemma ssr_list_range {T} `{Num T} (l : list T) q : 0 <= ssr_list l q <= Z.of_nat (length l).
+Proof.
+  induction l as [|e t IH]; simpl; [lia|]. destruct (nltb q e); lia.
+Qed.
+Lemma ssr_list_pos {T} `{Num T} (e : T) t q : nltb q e = false -> 1 <= ssr_list (e :: t) q.
+Proof. intros E. simpl. rewrite E. pose proof (ssr_list_range t q). lia. Qed.
+
+(* ------------------------------------------------------------------------------------------ *)
+(* 6. every vertex of a returned ray lies in the hull of the axes (real arithmetic)              *)
+(* ------------------------------------------------------------------------------------------ *)
+Section InHullR.
+Local Open Scope R_scope.
+
+Definition in_ax (ax : arr R) (v : R) : Prop :=
+  get 0 ax [0%Z] <= v <= get 0 ax [(dim ax 0%nat - 1)%Z].
+
+(* a non-empty 1-D axis whose values all lie between its first and last entry
+   (in particular any ascending axis) *)
+Definition axis_ok (ax : arr R) : Prop :=
+  exists n : Z, shape ax = [n] /\ length (dat ax) = Z.to_nat n /\ (1 <= n)%Z /\
+                forall k : Z, (0 <= k < n)%Z -> in_ax ax (get 0 ax [k]).
+
+Lemma axis_ok_of_ascending (ax : arr R) n :
+  shape ax = [n] -> length (dat ax) = Z.to_nat n -> (1 <= n)%Z ->
+  (forall i j : Z, (0 <= i <= j)%Z -> (j < n)%Z -> get 0 ax [i] <= get 0 ax [j]) -> axis_ok ax.
+Proof.
+  intros Hsh Hl Hn Hasc. exists n. repeat split; auto.
+  - apply Hasc; lia.
+  - unfold dim. rewrite Hsh. simpl. apply Hasc; lia.
+Qed.
+
+Lemma clamp_in (ax : arr R) (a : R) :
+  get 0 ax [0%Z] <= get 0 ax [(dim ax 0%nat - 1)%Z] -> in_ax ax (clamp ax a).
+Proof.
+  intros Hle. unfold in_ax, clamp, pymin2, pymax2. cbn [nltb nofZ NumR].
+  destruct (Rltb a (get 0 ax [0%Z])) eqn:E1;
+    [apply Rltb_true in E1|apply Rltb_false in E1];
+  match goal with |- context [Rltb ?u ?v] => destruct (Rltb u v) eqn:E2 end;
+    try (apply Rltb_true in E2); try (apply Rltb_false in E2); lra.
+Qed.
+
+Lemma cell_in (ax : arr R) (q lo up : R) :
+  axis_ok ax -> get 0 ax [0%Z] <= q -> cell ax q lo up -> in_ax ax lo /\ in_ax ax up.
+Proof.
+  intros (n & Hsh & Hlen & Hn & Hall) Hq. unfold cell. cbv zeta. cbn [nofZ NumR].
+  assert (Hd : dim ax 0%nat = n) by (unfold dim; rewrite Hsh; reflexivity).
+  rewrite Hd.
+  set (i := (searchsorted_right ax q - 1)%Z).
+  assert (Hi : (0 <= i <= n - 1)%Z).
+  { unfold i, searchsorted_right.
+    pose proof (ssr_list_range (dat ax) q) as Hr. rewrite Hlen in Hr.
+    destruct (dat ax) as [|e t] eqn:Ed; [simpl in Hlen; lia|].
+    assert (He : e = get 0 ax [0%Z]).
+    { unfold get. rewrite Hsh, Ed. reflexivity. }
+    assert (Hp : (1 <= ssr_list (e :: t) q)%Z).
+    { apply ssr_list_pos. cbn [nltb NumR]. apply Rltb_false. rewrite He. exact Hq. }
+    lia. }
+  intros [-> ->]. split.
+  - destruct (neqb q (get 0 ax [i])); apply Hall; lia.
+  - apply Hall. lia.
+Qed.
+
+Section Main.
+Variables (z x zgrad xgrad : arr R) (zend xend zsrc xsrc stepsize : R) (max_step : Z) (hg : bool).
+
+Lemma hull2_R : hull2 z x zend xend = true -> in_ax z zend /\ in_ax x xend.
+Proof.
+  unfold hull2, in_ax. cbn [nleb nofZ NumR]. intros Hh.
+  apply andb_prop in Hh. destruct Hh as [H1 H2].
+  apply andb_prop in H1. apply andb_prop in H2. destruct H1 as [A B]. destruct H2 as [C D].
+  apply Rleb_true in A, B, C, D. repeat split; assumption.
+Qed.
+
+Definition row_in (ray : arr R) (k : Z) : Prop :=
+  in_ax z (get 0 ray [k; 0%Z]) /\ in_ax x (get 0 ray [k; 1%Z]).
+
+(* loop invariant *)
+Definition hullinv (s : St2) : Prop :=
+  ray_ok zend xend max_step s /\
+  (forall k : Z, (1 <= k < s_count s)%Z -> row_in (s_ray s) k) /\
+  (hg = true ->
+   in_ax z (get 0 (s_lower s) [0%Z]) /\ in_ax z (get 0 (s_upper s) [0%Z]) /\
+   in_ax x (get 0 (s_lower s) [1%Z]) /\ in_ax x (get 0 (s_upper s) [1%Z])).
+
+Lemma clamped_in (p : arr R) :
+  in_ax z zend -> in_ax x xend -> clamped z x p -> in_ax z (get 0 p [0%Z]) /\ in_ax x (get 0 p [1%Z]).
+Proof.
+  intros Hz Hx [[a Ea] [b Eb]]. cbn [nofZ NumR] in Ea, Eb. rewrite Ea, Eb.
+  split; apply clamp_in; unfold in_ax in *; lra.
+Qed.
+
+Lemma rows_after_store (s : St2) (p : arr R) :
+  ray_ok zend xend max_step s -> (s_count s < max_step)%Z -> vec2 p ->
+  (forall k : Z, (1 <= k < s_count s)%Z -> row_in (s_ray s) k) ->
+  forall k : Z, (1 <= k < s_count s)%Z -> row_in (set_sub (s_ray s) [s_count s] p) k.
+Proof.
+  intros (Hc & Hsh & Hwf & _) Hlt [Hp1 Hp2] Hrows k Hk. unfold row_in.
+  rewrite !(get_set_sub_other 0 (s_ray s) p max_step 2 (s_count s) k) by (auto; lia).
+  apply Hrows. exact Hk.
+Qed.
+
+Lemma row_stored (s : St2) (p : arr R) :
+  ray_ok zend xend max_step s -> (s_count s < max_step)%Z -> vec2 p ->
+  in_ax z (get 0 p [0%Z]) /\ in_ax x (get 0 p [1%Z]) ->
+  row_in (set_sub (s_ray s) [s_count s] p) (s_count s).
+Proof.
+  intros (Hc & Hsh & Hwf & _) Hlt [Hp1 Hp2] Hin. unfold row_in.
+  rewrite !(get_set_sub_same 0 (s_ray s) p max_step 2 (s_count s)) by (auto; lia).
+  exact Hin.
+Qed.
+
+Lemma hullinv_progress nf s s' :
+  (hg = true -> axis_ok z /\ axis_ok x) -> in_ax z zend -> in_ax x xend ->
+  hullinv s -> progress hg max_step nf z x s s' -> hullinv s'.
+Proof.
+  intros Hax Hz Hx (Hok & Hrows & Hlu) Hpr.
+  pose proof (ray_ok_progress z x zend xend max_step hg nf s s' Hok Hpr) as Hok'.
+  destruct Hpr as (Hlt & _ & (Hv & _) & Hcase).
+  destruct Hcase as [(A & B & C & D & E)|[(A & B & C & D & (p & (M0 & M1) & Hp & Hcl) & Hcells)|(A & B & C & D & E & F)]].
+  - (* free mode: a clamped point *)
+    split; [exact Hok'|]. split; [|intros Eh; congruence].
+    intros k Hk. rewrite B in Hk. rewrite D.
+    destruct (Z.eq_dec k (s_count s)) as [->|Hne].
+    + apply row_stored; auto. apply clamped_in; auto.
+    + apply rows_after_store; auto. lia.
+  - (* grid mode: a clamped point, possibly snapped to a cell boundary *)
+    destruct (Hlu A) as (L0 & U0 & L1 & U1). destruct (Hax A) as [Haz Hax'].
+    destruct (clamped_in p Hz Hx Hcl) as [P0 P1].
+    assert (Q : in_ax z (get 0 (s_pcur s') [0%Z]) /\ in_ax x (get 0 (s_pcur s') [1%Z])).
+    { unfold magnet_of in M0, M1. cbn [nofZ NumR] in M0, M1.
+      split; [destruct M0 as [->|[->|->]]|destruct M1 as [->|[->|->]]]; assumption. }
+    split; [exact Hok'|]. split.
+    + intros k Hk. rewrite B in Hk. rewrite D.
+      destruct (Z.eq_dec k (s_count s)) as [->|Hne].
+      * apply row_stored; auto.
+      * apply rows_after_store; auto. lia.
+    + intros _. destruct Hcells as [Cz Cx]. cbn [nofZ NumR] in Cz, Cx.
+      destruct Q as [Q0 Q1].
+      destruct (cell_in z _ _ _ Haz (proj1 Q0) Cz) as [? ?].
+      destruct (cell_in x _ _ _ Hax' (proj1 Q1) Cx) as [? ?]. tauto.
+  - (* grid mode: a free step *)
+    split; [exact Hok'|]. rewrite B, D, E, F. split; assumption.
+Qed.
+
+Theorem ray2d_vertices_in_hull fuel ray count :
+  (hg = true -> axis_ok z /\ axis_ok x) ->
+  u_ray2d_core_v fuel z x zgrad xgrad zend xend zsrc xsrc stepsize max_step hg = Ok (ray, count) ->
+  forall k : Z, (0 <= k < count)%Z -> row_in ray k.
+Proof.
+  intros Hax Hc k Hk.
+  destruct (ray2d_core_count_range z x zgrad xgrad zend xend zsrc xsrc stepsize max_step hg fuel ray count Hc)
+    as [Hr Hsh].
+  assert (Hpos : (1 <= count)%Z) by lia.
+  destruct (ray2d_core_endpoints z x zgrad xgrad zend xend zsrc xsrc stepsize max_step hg fuel ray count Hc Hpos)
+    as (_ & _ & Hlt & E0 & E1 & _).
+  destruct (hull2 z x zend xend) eqn:Hh.
+  2:{ rewrite ray2d_core_outside in Hc by exact Hh. injection Hc as _ <-. lia. }
+  destruct (hull2_R Hh) as [Hz Hx].
+  destruct (Z.eq_dec k 0) as [->|Hk0].
+  { unfold row_in. cbn [nofZ NumR] in E0, E1. rewrite E0, E1. split; assumption. }
+  destruct (ray2d_core_char z x zgrad xgrad zend xend zsrc xsrc stepsize max_step hg Hh)
+    as (cond & body & s0 & Heq & (Hc0 & _ & _ & Hr0 & Hi0 & Hcell0) & Hstep).
+  rewrite Heq in Hc. destruct (while_fuel fuel cond body s0) as [s1| |] eqn:Ew; simpl in Hc; try discriminate.
+  destruct (loop_inv _ _ _ _ _ cond body Hstep hullinv) with (4 := Ew) as (_ & Hinv); auto.
+  - intros s s' Hinv _ Hpr. eapply hullinv_progress; eauto.
+  - (* initially *)
+    split; [apply ray_ok_init; auto; lia|]. split; [intros j Hj; lia|].
+    intros Ehg. destruct (Hax Ehg) as [Haz Hax']. destruct (Hcell0 Ehg) as [Cz Cx].
+    cbn [nofZ NumR] in Cz, Cx.
+    destruct (cell_in z _ _ _ Haz (proj1 Hz) Cz) as [? ?].
+    destruct (cell_in x _ _ _ Hax' (proj1 Hx) Cx) as [? ?]. tauto.
+  - destruct Hinv as (Hok & Hrows & _).
+    unfold fin2 in Hc. destruct ((max_step <=? s_count s1)%Z || _) eqn:Eb; injection Hc as <- <-; [lia|].
+    apply orb_false_elim in Eb. destruct Eb as [Eb _]. apply Z.leb_gt in Eb.
+    apply rows_after_store; auto; [apply vec2_of_list|lia].
+Qed.
+End Main.
+End InHullR.
